@@ -27,7 +27,14 @@ def ctor(case):
             "outAbs": [], "copyOut": [], "copyNum": -1, "copyDen": -1, "copyKey": "", "copyRaised": "", "copyEquals": False,
             "later": {"done": False, "barKey": "", "copyKey": "", "sigSame": True, "barOut": [], "copyOut": [], "equals": True},
             "case": {"c": c, "key": key}}
-    seq = build(c, via(idx))
+    if "rel" in c:
+        seq = P.seq_from_rel(c["rel"])          # a raw relative message list (unclosed notes, signatures anywhere)
+    else:
+        seq = build(c, via(idx))
+    if idx % 7 == 6 and "rel" not in c:
+        # history: the duration of the sequence was asked for, then the sequence was stretched in place
+        seq.get_sequence_duration_relation()
+        seq.scale(2, quantise_afterwards=False)
     line["in"] = P.raw_rel(seq)
     try:
         bar = Bar(seq, c["num"], c["den"], Key(key) if key else None)
@@ -179,6 +186,14 @@ def run_ctor(ctx, g):
             c = {"notes": notes, "extras": extras, "dur": ctx.rng.choice([0, cap - 1, cap, cap + 1, cap * 2, cap * 24]),
                  "num": num, "den": den}
             cases.append((len(cases), c, ctx.rng.choice([None, "C", "F#"])))
+    if not ctx.replay:
+        # raw relative lists: never-closed notes, orphan note-offs, signatures directly behind them
+        alpha = [P.on(-1, 0, 60, 80), P.off(-1, 0, 60), P.on(-1, 0, 62, 70), P.on(-1, 0, 64, 70), P.off(-1, 0, 62), P.wait(24), P.wait(48),
+                 P.wait(12), P.ts(-1, 3, 4), P.ts(-1, 4, 4), P.ks(-1, "G")]
+        for _ in range(6000 if ctx.thorough else 900):
+            num, den = ctx.rng.choice([(4, 4), (3, 4), (6, 8)])
+            rel = [dict(ctx.rng.choice(alpha)) for _ in range(ctx.rng.randint(2, 9))]
+            cases.append((len(cases), {"rel": rel, "num": num, "den": den}, ctx.rng.choice([None, "C"])))
     obs = pmap(ctor, cases, chunk=400)
     for i, o in enumerate(obs):
         o["id"] = i
